@@ -101,6 +101,8 @@ fn get_server_values_impl(socket: &mut UdpSocket) -> GDResult<HashMap<String, St
 fn extract_players(server_vars: &mut HashMap<String, String>, players_maximum: u32) -> GDResult<Vec<Player>> {
     let _ = players_maximum; // a number sent by the server is not an amount of memory to reserve
     let mut players_data: Vec<HashMap<String, String>> = Vec::new();
+    // every player has at least a name, so there cannot be more players than variables
+    let players_bound = server_vars.len();
 
     server_vars.retain(|key, value| {
         let split: Vec<&str> = key.split('_').collect();
@@ -121,7 +123,7 @@ fn extract_players(server_vars: &mut HashMap<String, String>, players_maximum: u
             _x => true, // println!("UNKNOWN {id} {x} {value}");
         };
 
-        if early_return {
+        if early_return || id >= players_bound {
             return true;
         }
 
